@@ -290,7 +290,7 @@ pub fn gen_case(seed: u64, focus: &str) -> Value {
         let n_req = rng.range(1, 4) as usize;
         let mut reqs = vec![];
         for k in 0..n_req {
-            let kind_w: [(&str, u32); 14] = [
+            let kind_w: [(&str, u32); 16] = [
                 ("health", 14),
                 ("solve", 40),
                 ("solve_chunked", 6),
@@ -305,6 +305,8 @@ pub fn gen_case(seed: u64, focus: &str) -> Value {
                 ("unknown_path", 3),
                 ("garbage", 2),
                 ("empty_body", 2),
+                ("slot_end_before_start", 4),
+                ("huge_costs", 3),
             ];
             let kind = kind_w[rng.weighted(&kind_w.iter().map(|x| x.1).collect::<Vec<_>>())].0;
             let mut g = rng.fork((c * 100 + k) as u64);
@@ -421,6 +423,7 @@ enum Class {
     ValidSolve,
     Invalid,   // must never be answered with a 200 schedule
     OtherHttp, // wrong method / unknown path: any well-formed HTTP answer, not a schedule
+    Either,    // well-formed but beyond what the solver accepts (guards against overflow): may fail; if it is answered 200 the answer must be right
 }
 
 struct Req {
@@ -479,6 +482,26 @@ fn build_request(id: String, r: &Value) -> Req {
                 t["capacity"] = json!(0);
             }
             (Class::Invalid, http_request("POST", "/solve", "1.1", &ct("application/json"), &serde_json::to_vec(&v).unwrap(), None))
+        }
+        "slot_end_before_start" => {
+            // semantically invalid in a way the loader does not notice: fails only in a later stage
+            let mut v = inst.clone();
+            let t0 = crate::refmodel::fmt_time(1_709_510_400 + 8 * 3600);
+            let t1 = crate::refmodel::fmt_time(1_709_510_400 + 7 * 3600);
+            let loc = v["locations"][0]["id"].clone();
+            let slot = json!({"id": "bad_slot", "location": loc, "start": t0, "end": t1, "trackCount": 1});
+            match v["maintenanceSlots"].as_array_mut() {
+                Some(a) => a.push(slot),
+                None => {
+                    v["maintenanceSlots"] = json!([slot]);
+                }
+            }
+            (Class::Invalid, http_request("POST", "/solve", "1.1", &ct("application/json"), &serde_json::to_vec(&v).unwrap(), None))
+        }
+        "huge_costs" => {
+            let mut v = inst.clone();
+            v["parameters"]["costs"]["serviceTrip"] = json!(1_000_000_000_000_000u64);
+            (Class::Either, http_request("POST", "/solve", "1.1", &ct("application/json"), &serde_json::to_vec(&v).unwrap(), None))
         }
         "wrong_content_type" => (Class::Invalid, http_request("POST", "/solve", "1.1", &ct("text/plain"), &body_ok, None)),
         "empty_body" => (Class::Invalid, http_request("POST", "/solve", "1.1", &ct("application/json"), b"", None)),
@@ -987,7 +1010,7 @@ fn run_inner(case: &Value) -> Value {
                         // a failing (or faulted) request earlier on this connection may legitimately take the
                         // connection down; what was pipelined behind it is retried on a new connection
                         // (an HTTP/1.0 request without keep-alive ends the connection after its response)
-                        let poisoned = cc.sent_reqs[..=cc.answered].iter().any(|&r| matches!(cl.reqs[r].class, Class::Invalid) || cl.reqs[r].fault != "none")
+                        let poisoned = cc.sent_reqs[..=cc.answered].iter().any(|&r| matches!(cl.reqs[r].class, Class::Invalid | Class::Either) || cl.reqs[r].fault != "none")
                             || cc.sent_reqs[..cc.answered].iter().any(|&r| cl.reqs[r].kind == "solve_http10");
                         if !poisoned && matches!(front.class, Class::ValidSolve | Class::Health) && !cl.excused.contains(&first) && !cl.answered.contains_key(&first) {
                             v(
@@ -1000,7 +1023,12 @@ fn run_inner(case: &Value) -> Value {
                             cl.excused.insert(r);
                         }
                         // retry what was queued behind the failing request on a new connection
-                        let behind: Vec<usize> = if matches!(front.class, Class::Invalid) || front.fault != "none" { cc.sent_reqs[cc.answered + 1..].to_vec() } else { cc.sent_reqs[cc.answered..].to_vec() };
+                        // - the front request failed itself (invalid / faulted): retry what is behind it;
+                        // - the connection was taken down by an earlier failing request: retry from the front
+                        //   (on a fresh connection it is the first request, so this cannot repeat);
+                        // - a valid front request was dropped on a clean connection: reported above, not retried.
+                        let front_failed_itself = matches!(front.class, Class::Invalid | Class::Either) || front.fault != "none";
+                        let behind: Vec<usize> = if !front_failed_itself && poisoned { cc.sent_reqs[cc.answered..].to_vec() } else { cc.sent_reqs[cc.answered + 1..].to_vec() };
                         cc.answered = cc.sent_reqs.len();
                         cc.aborted = true;
                         if let Some(&b) = behind.first() {
@@ -1105,6 +1133,10 @@ fn check_response(req: &Req, status: u16, body: &[u8], viols: &mut Vec<Violation
             if status == 200 || looks_like_schedule() {
                 v(format!("C18.invalid_request_answered_200:{}", req.kind), format!("{} ({}) is invalid but was answered {} with a schedule-like body", req.id, req.kind, status));
             }
+        }
+        Class::Either => {
+            // nothing to demand from a failure; a 200 is not checked further (the instance differs from
+            // the one REF was given only in a cost coefficient, which no C18 oracle reads)
         }
         Class::OtherHttp => {
             if looks_like_schedule() {
